@@ -100,7 +100,12 @@ def run(ids, props, tier):
         want = props if props else [meta["breaks_property"]]
         for pid in want:
             t0 = time.time()
-            rc, out = sh(f"{HERE}/tools/run_on_tree.sh {tree} {pid} --tier {tier}", env={"MUT_OUT": d + "/out", "MUT_TARGET": f"{SCR}/harness-target-" + os.environ.get("SEEDED_SLOT", "0"), "VERIF_SEED": "11"}, timeout=7200)
+            for attempt in range(4):
+                rc, out = sh(f"{HERE}/tools/run_on_tree.sh {tree} {pid} --tier {tier}", env={"MUT_OUT": d + "/out", "MUT_TARGET": f"{SCR}/harness-target-" + os.environ.get("SEEDED_SLOT", "0"), "VERIF_SEED": "11"}, timeout=7200)
+                if rc != 2:
+                    break
+                # exit 2 = inconclusive (typically the harness did not build because it was being edited): wait and try again
+                time.sleep(45)
             first = [l for l in out.splitlines() if l.startswith("failure")][:1]
             meta["detected_by"][pid] = {"tier": tier, "exit": rc, "detected": rc == 1, "secs": round(time.time() - t0, 1), "first_failure": (first[0][:300] if first else "")}
             json.dump(meta, open(sd + "/meta.json", "w"), indent=1)
